@@ -121,12 +121,7 @@ def tune_explore(shrink_budget_s=8):
   that do not depend on full minimality)."""
   if common.tier() != "quick":
     shrink_budget_s = 20
-  if not getattr(explore.shrink, "_tuned", False):
-    orig = explore.shrink
-    def shrink(monitor, seed_name, history, clause, budget_s=shrink_budget_s):
-      return orig(monitor, seed_name, history, clause, budget_s=budget_s)
-    shrink._tuned = True
-    explore.shrink = shrink
+  os.environ["VERIF_SHRINK_BUDGET_S"] = str(shrink_budget_s)
 
 
 class StatSink(object):
